@@ -35,9 +35,9 @@ EXHAUSTIVE_NOTE = "all ADMGs on 3 labelled nodes A,B,C (3 forward/backward/none 
 def strategy(tier):
     mx = 6
     return st.one_of(
-        gen.admgs(1, mx).map(lambda g: {"g": g}),
+        gen.with_aux_names(gen.admgs(1, mx)).map(lambda g: {"g": g}),
         gen.admgs(3, mx, bi_densities=(3, 5, 7), di_densities=(1, 3, 5)).map(lambda g: {"g": g}),
-        gen.embedded_admgs(2).map(lambda g: {"g": g}),
+        gen.with_aux_names(gen.embedded_admgs(2)).map(lambda g: {"g": g}),
         gen.embedded_admgs(1, motifs=gen.SEP_MOTIFS).map(lambda g: {"g": g}),
     )
 
